@@ -94,4 +94,7 @@ MUTANTS = [
     M('short:intersperse:error-inside-token', 'short', ['C12'], "LexedStr<'_>::intersperse_trivia", 'let text_pos = builder.lexed.text_start(builder.pos);', 'let text_pos = builder.lexed.text_start(builder.pos) / 2;'),
     M('short:intersperse:token-count-ignored', 'short', ['C02'], "LexedStr<'_>::intersperse_trivia", '} => builder.token(kind, n_raw_tokens),', '} => builder.token(kind, 1),'),
     M('short:intersperse:no-final-exit-state', 'short', ['C01', 'C02'], "LexedStr<'_>::intersperse_trivia", 'Step::Exit => builder.exit(),', 'Step::Exit => (),'),
+    # ---- PARSER recursion measure
+    M('parser:block_expr:brace-not-consumed', 'parser', ['C01'], 'block_expr', "    p.bump(T!['{']);\n", ''),
+    M('parser:paren:open-not-consumed', 'parser', ['C01'], 'tuple_expr', "    p.expect(T!['(']);\n", ''),
 ]
